@@ -4,7 +4,7 @@
    instantiated with the out-of-circuit square root the gadgets call (ark_sr). *)
 Require Import ZArith List Bool.
 From D377 Require Import Base.Certs Base.ZpField Base.FieldSec Base.Fields Model.Decaf Model.Gadgets Model.Wrapper Model.Concrete.
-From D377 Require Import Spec.Edwards Spec.DecafSpec Proofs.Instance Proofs.Final Proofs.GadgetProofs Proofs.WrapperProofs Proofs.Codec Proofs.EdwardsLaw.
+From D377 Require Import Spec.Edwards Spec.DecafSpec Proofs.Instance Proofs.Final Proofs.GadgetProofs Proofs.WrapperProofs Proofs.WrapperNative Proofs.Codec Proofs.EdwardsLaw.
 Local Existing Instance FqF.
 
 Definition g_decode_honest := @decode_honest FqF ark_D ark_ZETA fq_neg ark_sr.
@@ -58,6 +58,20 @@ Theorem C13_history : forall ops w, w_inv (snd w) -> Forall w_op_ok ops ->
   snd (w_run w ops) = snd (n_run (w_abs (snd w)) ops).
 Proof.
   exact (@wrun_refines FqF ark_D ark_ZETA fq_neg ark_sr ark_sr_contract zeta_ns fq_neg0 fq_neg_opp fq_two_nz d_ns amd_ns m1_sq).
+Qed.
+(* the same statement against the NATIVE element in extended projective coordinates: a variable holding the valid element P, driven through
+   any history whose operands are valid native elements, stays satisfied, ends denoting the native result, and every compress_to_field /
+   value read is n_encode / the affine point of the native element at that moment (ark_add, ark_sub, ark_double, pneg = the ark-ec
+   formulas, tied to the dependency source by Tie/Dep.v) *)
+Definition p_run := @prun FqF ark_D fq_neg ark_sr.
+Definition p_ok := @pop_ok FqF ark_D.
+Theorem C13_history_native : forall ops P b, validP P -> Forall p_ok ops ->
+  let w := (b, WElt (aff P)) in
+  fst (fst (w_run w (map (@to_wop FqF) ops))) = b /\
+  w_abs (snd (fst (w_run w (map (@to_wop FqF) ops)))) = aff (fst (p_run P ops)) /\
+  snd (w_run w (map (@to_wop FqF) ops)) = snd (p_run P ops).
+Proof.
+  exact (@gadget_history_is_native_history FqF ark_D ark_ZETA fq_neg ark_sr ark_sr_contract zeta_ns fq_neg0 fq_neg_opp fq_two_nz d_ns amd_ns m1_sq).
 Qed.
 (* forcing the encoding / the element / reading / cloning, in any order and any number of times, changes no value *)
 Theorem C13_forcing_changes_no_value : forall ops w, w_inv (snd w) -> forallb (@is_force FqF) ops = true ->
